@@ -26,7 +26,8 @@ RULE = ("history = 1..8 processes x 3..12 operations each (set / bulk_set of 1..
         "processes, some get returned a value written by another process and some get "
         "returned None after an unset or before any set; plus histories of 2..4 processes x "
         "25..45 operations in which get() meets an injected transient dbm error on its first "
-        "open (retry path, back-off sleep scaled down) while other processes keep writing; "
+        "open (retry path, back-off sleep scaled down) while other processes keep writing; plus "
+        "histories whose processes are separately started interpreters (own hash salt); "
         "distinct by history hash")
 
 
@@ -196,6 +197,8 @@ def run_impl(case):
     open(logf, 'w').close()
     ctx = multiprocessing.get_context('fork')
     go = os.path.join(tmp, 'go') if case.get('head_start') else None
+    if case.get('separate'):
+        return run_separate(case, tmp, logf, go)
     procs = [ctx.Process(target=child, args=(p, ops, os.path.join(tmp, 'g'), logf,
                                              case['pauses'], case.get('inject', 0.0),
                                              go if p else None, case.get('ctx', 0.0),
@@ -225,6 +228,54 @@ def run_impl(case):
         shutil.rmtree(tmp, ignore_errors=True)
 
 
+def run_separate(case, tmp, logf, go):
+    """ the processes are separately started interpreters (as when several command-line tools
+    share a cache), each with its own hash salt """
+    import subprocess
+    import sys
+    here = os.path.dirname(os.path.dirname(os.path.dirname(os.path.abspath(__file__))))
+    procs = []
+    try:
+        for p, ops in enumerate(case['progs']):
+            args = [p, ops, os.path.join(tmp, 'g'), logf, case['pauses'], case.get('inject', 0.0),
+                    go if p else None, case.get('ctx', 0.0), bool(case.get('head_start'))]
+            env = dict(os.environ, PYTHONPATH=here, PYTHONHASHSEED=str(1000 + p),
+                       PYTHONDONTWRITEBYTECODE='1')
+            procs.append(subprocess.Popen([sys.executable, '-m', 'vh.props.c19', json.dumps(args)],
+                                          env=env, cwd=here, start_new_session=True,
+                                          stdout=subprocess.DEVNULL, stderr=subprocess.DEVNULL))
+        deadline = time.time() + 60
+        hung = False
+        for pr in procs:
+            try:
+                pr.wait(max(0.1, deadline - time.time()))
+            except subprocess.TimeoutExpired:
+                hung = True
+        for pr in procs:
+            if pr.poll() is None:
+                pr.kill()
+                pr.wait()
+        evs = []
+        with open(logf) as f:
+            for line in f:
+                evs.append(json.loads(line))
+        evs.sort(key=lambda e: e[0])
+        return {'events': evs, 'hung': hung, 'exit': [pr.returncode for pr in procs]}
+    finally:
+        shutil.rmtree(tmp, ignore_errors=True)
+
+
+def gen_separate_case(rng, tier):
+    """ one writer and 2..3 readers on one key, separately started interpreters """
+    nread = rng.choice([2, 3])
+    progs = [[['set', 0, f'v{i % 3}'] for i in range(40)]]
+    for _ in range(nread):
+        progs.append([['get', 0] if rng.random() < 0.85 else ['set', 0, 'v9']
+                      for _ in range(30)])
+    return {'progs': progs, 'pauses': rng.randrange(1 << 30), 'ctx': 0.0, 'head_start': True,
+            'separate': True}
+
+
 def eval_cases(rng, count, extra):
     fixed = extra.get('fixed')
     todo = fixed if fixed is not None else [None] * count
@@ -234,6 +285,8 @@ def eval_cases(rng, count, extra):
             case = item
         elif extra.get('inject'):
             case = gen_inject_case(rng, extra.get('tier', 'quick'))
+        elif extra.get('separate'):
+            case = gen_separate_case(rng, extra.get('tier', 'quick'))
         else:
             case = gen_case(rng, extra.get('tier', 'quick'))
         out.append({'case': case, 'impl': run_impl(case)})
@@ -372,6 +425,8 @@ def judge(rep, item, mobs):
                  f"{('operation raised ' + excs[0][3] + '; ') if excs else ''}"
                  f"{len(ops)}/{total} operations completed", impl=impl['events'][-12:])
         return
+    if case.get('separate'):
+        rep.count('histories_of_separately_started_interpreters')
     if case.get('inject'):
         rep.count('histories_with_transient_errors')
         rep.count('transient_errors_injected',
@@ -423,6 +478,9 @@ def run(tier, seed, replay_case=None):
         ninj = 12 if tier == 'quick' else 200
         items += core.run_sharded(eval_cases, seed + 1, ninj, {'tier': tier, 'inject': True},
                                   shards=min(core.NCPU, ninj), workers=6)
+        nsep = 4 if tier == 'quick' else 60
+        items += core.run_sharded(eval_cases, seed + 2, nsep, {'tier': tier, 'separate': True},
+                                  shards=min(4, nsep), workers=4)
     drv = core.Driver()
     mobs = drv.run([model_case(it) for it in items])
     for it, mo in zip(items, mobs):
@@ -441,3 +499,8 @@ def run(tier, seed, replay_case=None):
                        "processes", "shelve/dbm writes of one record are durable and visible to "
                        "the next opener", "CLOCK_MONOTONIC is consistent across processes"]
     return rep.finish(aud, RULE)
+
+
+if __name__ == '__main__':
+    import sys
+    child(*json.loads(sys.argv[1]))
